@@ -491,7 +491,7 @@ func (r *Run) runCase(c *Case, fn func(c *Case), wid int) {
 	}
 	in.part.Store(c.Part)
 	atomic.StoreUint64(&in.index, c.Index)
-	atomic.StoreInt64(&in.since, time.Now().UnixNano())
+	atomic.StoreInt64(&in.since, atomic.LoadInt64(&ticks)+1)
 	defer func() {
 		atomic.StoreInt64(&in.since, 0)
 		if !c.recheck && c.w.evals == before {
@@ -534,8 +534,13 @@ func trimStack(st string) string {
 // watchdog reports a case that does not terminate (the only wall-clock oracle:
 // 60 s against normal case times of microseconds to milliseconds) and a
 // runaway heap; both end the run with a violation for the case in flight.
+// ticks counts the watchdog's wake-ups (one per half second of *running* time: a
+// process that is frozen or starved of CPU does not tick, so that a pause of the
+// whole sandbox is not mistaken for a hanging case).
+var ticks int64
+
 func (r *Run) watchdog() {
-	limit := 60 * time.Second
+	limit := 120 * time.Second
 	if v := os.Getenv("VERIF_HANG_S"); v != "" {
 		var s int
 		fmt.Sscanf(v, "%d", &s)
@@ -546,14 +551,14 @@ func (r *Run) watchdog() {
 	var ms runtime.MemStats
 	for {
 		time.Sleep(500 * time.Millisecond)
-		now := time.Now().UnixNano()
+		now := atomic.AddInt64(&ticks, 1)
 		for i := range r.inflight {
 			in := &r.inflight[i]
 			since := atomic.LoadInt64(&in.since)
-			if since != 0 && time.Duration(now-since) > limit {
+			if since != 0 && time.Duration(now-since)*500*time.Millisecond > limit {
 				part, _ := in.part.Load().(string)
 				idx := atomic.LoadUint64(&in.index)
-				r.fail("hang/"+part, fmt.Sprintf("case did not terminate within %v", limit), part, idx, nil, nil)
+				r.fail("hang/"+part, fmt.Sprintf("case did not terminate within %v of running time", limit), part, idx, nil, nil)
 				os.Exit(r.Finish())
 			}
 		}
@@ -582,12 +587,15 @@ func Isolated(d time.Duration, f func()) (ok bool, panicked interface{}) {
 		defer func() { done <- recover() }()
 		f()
 	}()
-	select {
-	case p := <-done:
-		return true, p
-	case <-time.After(d):
-		return false, nil
+	// the deadline is counted in half-second wake-ups, not wall time (see ticks)
+	for i := time.Duration(0); i < d; i += 500 * time.Millisecond {
+		select {
+		case p := <-done:
+			return true, p
+		case <-time.After(500 * time.Millisecond):
+		}
 	}
+	return false, nil
 }
 
 func fnv64(s string) uint64 {
